@@ -255,6 +255,10 @@ def add_common(rng, c):
         c["steps"] = [0] + [d * 2 ** k for k in range(T - 1)]          # log dump
         if len(set(np.diff(c["steps"]))) == 1:
             c["steps"] = [0, d, 3 * d] + [d * 2 ** k for k in range(2, T - 1)]
+    elif T >= 4 and rng.random() < 0.3:
+        # an uneven dump whose first and last intervals coincide (a run continued after a gap, two bursts): still unevenly spaced,
+        # so the first frame is the only time origin
+        c["steps"] = [d * k for k in range(T - 2)] + [d * (T + 2), d * (T + 3)]
     else:
         s0 = rng.choice([0, 1000])
         c["steps"] = [s0 + d * k for k in range(T)]
